@@ -137,10 +137,13 @@ class Roles:
     def global_reach(self) -> Set[str]:
         return self.memo('global_reach', lambda: self.reach(self.iter_driver))
 
+    def task_wrapper_candidates(self) -> List[FuncInfo]:
+        return [e for e in self.evaluators if self.fq(e) in self.global_reach]
+
     @property
     def task_wrapper(self) -> FuncInfo:
         def build():
-            cands = [e for e in self.evaluators if self.fq(e) in self.global_reach]
+            cands = self.task_wrapper_candidates()
             return self._unique('task wrapper', cands,
                                 'caller of Problem.Calculate reachable from the iteration driver')
         return self.memo('task_wrapper', build)
